@@ -19,7 +19,7 @@ LEVEL_TEXT = ("Static structural proof of necessary conditions: (R8.1) in the co
               "with their published codes and reachable from Sidecar.validate; (R8.4) error contexts balanced. Totality "
               "beyond explicit type guards, 'valid sidecar => no error' and reference expansion over all combinations "
               "are NOT decided.")
-LEVEL_EXTRA = "Added after the seeded evaluation: (R8.2) the table indexed by screened reference names is built from the whole sidecar, unfiltered; (R8.5) one reference pattern in all passes; (R8.6) '#' counted on a copy with definitions removed and Def-expand shrunk; (R8.7) results of per-entry loops are accumulated, never last-wins (one frozen exception). (R8.8) no issue list is discarded inside the sidecar validator."
+LEVEL_EXTRA = "Added after the seeded evaluation: (R8.2) the table indexed by screened reference names is built from the whole sidecar, unfiltered; (R8.5) one reference pattern in all passes; (R8.6) '#' counted on a copy with definitions removed and Def-expand shrunk; (R8.7) results of per-entry loops are accumulated, never last-wins (one frozen exception). (R8.8) no issue list is discarded inside the sidecar validator. (R8.9) every entry passes the placeholder count (known finding F-C08-5 today)."
 
 ROWS = [
     {"key": "SidecarErrors.BLANK_HED_STRING", "code": None},
@@ -259,6 +259,31 @@ def run(ctx):
           [m for m in prog.find_class("Sidecar").all_methods if m.name in ("validate", "extract_definitions", "get_def_dict")]
     ns8 = check_no_dropped_issues(ctx, "R8.8", sc8)
     ctx.floor("R8.8", "issue-producing calls in the sidecar validator", ns8, 8)
+
+    # ---------------- R8.9: the '#' count rule is applied to every entry
+    ctx.rule("R8.9", "every entry of every column passes the placeholder-count check (no gate skips it)")
+    vv9 = view(ctx, val)
+    counts9 = [n_ for (n_, c) in vv9.calls(lambda c: call_name(c) == "_validate_pound_sign_count")]
+    ctx.floor("R8.9", "placeholder-count calls in SidecarValidator.validate", len(counts9), 1)
+    for lp, t in string_chains(ctx, val):
+        if not any(any(x is c_.ast or any(x is y for y in ast.walk(c_.ast)) for x in ast.walk(lp)) for c_ in counts9):
+            continue          # (the expansion loop is another loop over the same strings)
+        head = vv9.cfg.node_of(lp)
+        body_first = [m for (m, l) in vv9.cfg.succ[head] if l is True]
+        seen, stack, skipped = set(), list(body_first), False
+        while stack:
+            x = stack.pop()
+            if x in seen or x in counts9:
+                continue
+            if x is head:
+                skipped = True
+                break
+            seen.add(x)
+            stack.extend(m for (m, l) in vv9.cfg.succ[x] if l != "exc" and m is not vv9.cfg.exit and m is not vv9.cfg.raise_exit)
+        ctx.check(not skipped, "R8.9", val.qualname, lp.iter, loc(val, lp),
+                  "an iteration of the per-entry loop can reach the next entry without the placeholder-count check: an entry that also "
+                  "holds a Definition (`(Definition/X, (Red)), Label/#` in a categorical column) is never counted, although the count "
+                  "already ignores definitions (R8.6)", desc="placeholder count on every path of the per-entry loop")
 
     # ---------------- R8.3
     sc = prog.find_class("Sidecar")
